@@ -174,7 +174,12 @@ def _index(e, c, a):
     v = a[0] if isinstance(a[0], SliceRef) else unguard(a[0])
     if isinstance(a[1], Struct):      # Range / RangeTo / RangeFrom
         sl = as_slice(e, v)
-        if 'RangeFrom' in c: lo, hi = e.concretize(a[1].f[0]), sl.n
+        if 'RangeInclusive' in c or 'RangeToInclusive' in c:
+            lo = 0 if 'RangeToInclusive' in c else e.concretize(a[1].f[0])
+            hi = e.concretize(a[1].f[0 if 'RangeToInclusive' in c else 1])
+            if hi == (1 << 64) - 1: raise RustPanic('range end overflows')
+            hi += 1
+        elif 'RangeFrom' in c: lo, hi = e.concretize(a[1].f[0]), sl.n
         elif 'RangeTo' in c: lo, hi = 0, e.concretize(a[1].f[0])
         elif 'RangeFull' in c or not a[1].f: lo, hi = 0, sl.n
         else: lo, hi = e.concretize(a[1].f[0]), e.concretize(a[1].f[1])
@@ -428,6 +433,7 @@ def _into(e, c, a):
     if cands: return e.call_mir(cands[0], a)
     if isinstance(v, SliceRef) and dst == 'Vec': return VecObj([clone_val(e, x) for x in v.aslist()])
     if isinstance(v, str) and dst == 'String': return StrBuf(v)
+    if type(v).__name__ == 'SymStr' and dst == 'String': return StrBuf(v)
     raise Unsupported('into ' + c)
 
 # ---- iterators ----
@@ -447,6 +453,8 @@ def as_it(e, c, v):
                 return r.f[0] if r.v == 'Some' else None
             return It(nxt)
     if isinstance(v, VecObj): return it_list(list(v.items))
+    if isinstance(v, Struct) and 'RangeInclusive' in c:
+        lo, hi = e.concretize(v.f[0]), e.concretize(v.f[1]); return it_list(list(range(lo, hi + 1)))
     if isinstance(v, Struct) and len(v.f) == 2 and 'Range' in c:
         lo, hi = e.concretize(v.f[0]), e.concretize(v.f[1]); return it_list(list(range(lo, hi)))
     if isinstance(v, Enum) and v.ty == 'Option': return it_list(list(v.f))
@@ -476,6 +484,8 @@ def _into_iter(e, c, a):
     if isinstance(v, It): return v
     if isinstance(v, Ref) and isinstance(v.get(), It): return v.get()
     if isinstance(v, VecObj): return it_list(list(v.items))
+    if isinstance(v, Struct) and 'RangeInclusive' in c:
+        lo, hi = e.concretize(v.f[0]), e.concretize(v.f[1]); return it_list(list(range(lo, hi + 1)))
     if isinstance(v, Struct) and 'Range' in c:
         lo, hi = e.concretize(v.f[0]), e.concretize(v.f[1]); return it_list(list(range(lo, hi)))
     if isinstance(v, Ref) and isinstance(v.get(), VecObj): return it_list([Ref(v.get().items, i) for i in range(len(v.get().items))])
@@ -490,6 +500,12 @@ def _into_iter(e, c, a):
 @model('Iterator::next', '*::next')
 def _next(e, c, a):
     it = deref(a[0])
+    if isinstance(it, Struct) and 'RangeInclusive' in c:
+        lo, hi, done = it.f
+        if done or not e.branch(e.binop('Le', lo, hi, 'usize')): return NONE()
+        if e.branch(e.binop('Eq', lo, hi, 'usize')): it.f[2] = True
+        else: it.f[0] = e.binop('Add', lo, 1, 'usize')
+        return Some(lo)
     if isinstance(it, Struct) and 'Range' in c:     # Range<usize> by value in a local
         lo, hi = it.f
         if e.branch(e.binop('Lt', lo, hi, 'usize')):
@@ -723,6 +739,12 @@ def _fncall(e, c, a):
     fv = a[0]; args = a[1]
     return e.call_value(fv, list(args.f))
 
+@model('RangeInclusive::new')
+def _range_incl(e, c, a): return Struct([a[0], a[1], False])
+@model('RangeInclusive::start')
+def _ri_start(e, c, a): return Ref(deref(a[0]).f, 0)
+@model('RangeInclusive::end')
+def _ri_end(e, c, a): return Ref(deref(a[0]).f, 1)
 @model('mem::drop')
 def _mem_drop(e, c, a): e.drop_value(a[0]); return UNIT
 @model('mem::swap')
